@@ -235,7 +235,7 @@ pub fn build() -> Property {
         phases: vec![Phase {
             name: "cli",
             kind: PhaseKind::Gen {
-                cases: (1500, 15000),
+                cases: (8000, 60000),
                 tape_len: 40000,
                 f: Box::new(cli_case),
             },
